@@ -209,9 +209,12 @@ func runScenarioW(t fataler, full *util.MemoryNodeDB, root []byte, model map[str
 		cur, prev := util.NewMemoryNodeDB(), util.NewMemoryNodeDB()
 		i := 0
 		_ = donorMem.Iterate(context.Background(), func(ctx context.Context, key util.Key, node util.Node) error {
-			if i%2 == 0 {
+			// a third of the nodes in the upper layer, a third in the lower one, a third in both (a block state that changed
+			// a value and changed it back holds nodes its parent state holds as well)
+			if i%3 != 1 {
 				_ = cur.PutNode(key, node.CloneNode())
-			} else {
+			}
+			if i%3 != 0 {
 				_ = prev.PutNode(key, node.CloneNode())
 			}
 			i++
@@ -231,8 +234,10 @@ func runScenarioW(t fataler, full *util.MemoryNodeDB, root []byte, model map[str
 		desc = func() string { return d0() + " [donor store: " + donorKind + "]" }
 	}
 	snap := map[string][]byte{}
+	snapN := 0
 	_ = donor.Iterate(context.Background(), func(ctx context.Context, key util.Key, node util.Node) error {
 		snap[string(key)] = node.Encode()
+		snapN++
 		return nil
 	})
 	rep := mptkit.NewTrie(damaged, version, root)
@@ -288,8 +293,8 @@ func runScenarioW(t fataler, full *util.MemoryNodeDB, root []byte, model map[str
 		}
 		return nil
 	})
-	if n != len(snap) {
-		t.Fatalf("%s: donor has %d entries, had %d", desc(), n, len(snap))
+	if n != snapN {
+		t.Fatalf("%s: donor iterates %d entries, before the repair %d", desc(), n, snapN)
 	}
 }
 
@@ -321,6 +326,16 @@ func TestMissingNodesAndRepair(t *testing.T) {
 		model := map[string][]byte{}
 		var used []string
 		ops := mptkit.GenOpsP(rt, model, &used, gen.Uniform(rt, 3, 24, "nops"), 3, 15, "o")
+		deep := gen.Chance(rt, 8, "deep")
+		if deep {
+			// a trie that is dozens of nodes deep along one path: every prefix (in whole bytes) of one long key is a key
+			p := mptkit.GenFixedPath(rt, gen.Uniform(rt, 17, 32, "deeplen"), "deeppath")
+			for i := 2; i <= len(p); i += 2 {
+				v := []byte{byte(i), 0xd0}
+				ops = append(ops, mptkit.Op{Kind: "ins", Path: p[:i], Val: fmt.Sprintf("%x", v)})
+				model[p[:i]] = v
+			}
+		}
 		if err := mptkit.Apply(mpt, ops); err != nil {
 			rt.Fatalf("build %v: %v", ops, err)
 		}
@@ -395,6 +410,9 @@ func TestMissingNodesAndRepair(t *testing.T) {
 			runScenarioW(rt, full, root, model, removed, version, donorMode, mode, desc)
 			nt := (interior && version != v0) || tops >= 2
 			cls := []string{"removal:" + kinds[i], "donor:" + donorMode}
+			if deep {
+				cls = append(cls, "trie-more-than-32-nodes-deep")
+			}
 			if warm {
 				cls = append(cls, "warm-long-lived-trie")
 			}
